@@ -174,7 +174,8 @@ func (m *mount) runSeq(spec seqSpec, name string, count bool) (fail *failure) {
 	stale := func() bool { return viewSet && viewVer != entryVer }
 
 	mk := func(opk, class, msg string) *failure {
-		f := map[string]bool{
+		f := map[string]bool{}
+		for k, v := range map[string]bool{
 			"entry-changed-after-read-on-handle": stale(),
 			"stored-chunks-before":               hasChunks,
 			"wrote-over-chunk-limit":             wroteBig,
@@ -183,6 +184,10 @@ func (m *mount) runSeq(spec seqSpec, name string, count bool) (fail *failure) {
 			"extended-by-truncate":               extended,
 			"reopened":                           reopened,
 			"memory-buffer-self-upload":          autosave,
+		} {
+			if v {
+				f[k] = true
+			}
 		}
 		return &failure{Class: class, Op: opk, At: at, Msg: msg, Feat: f}
 	}
@@ -539,7 +544,11 @@ func exhaustive(maxLen int, buffer string, reads string, sampleLonger int, r *li
 			a := alpha[rng.Intn(len(alpha))]
 			ops = append(ops, op{K: "W", Off: a.off, Len: a.n})
 		}
-		out = append(out, seqSpec{Buffer: buffer, Part: "exhaustive-sample", Idx: idx, Ops: ops, Reopen: i%5 == 0, Reads: "each"})
+		rd := reads
+		if i%5 == 0 {
+			rd = "each" // for the in-memory buffer these witness the read-during-self-upload defect
+		}
+		out = append(out, seqSpec{Buffer: buffer, Part: "exhaustive-sample", Idx: idx, Ops: ops, Reopen: i%5 == 0, Reads: rd})
 		idx++
 	}
 	return out
@@ -680,7 +689,7 @@ func main() {
 		finish(0)
 	}
 	pf := c.StartFiler()
-	if !c.WaitHTTP(pf.Url()+"/", "filer", 60) {
+	if !c.WaitHTTP(pf.Url()+"/", "filer", 150) {
 		finish(0)
 	}
 	fc, err := dialFiler("127.0.0.1", pf.Port)
@@ -751,11 +760,15 @@ func main() {
 		if b == "memory" {
 			reads = "safe"
 		}
-		all = append(all, exhaustive(r.Pick(3, 4), b, reads, r.Pick(150, 1500), r)...)
+		if b == "tempfile" {
+			all = append(all, exhaustive(r.Pick(3, 4), b, reads, r.Pick(150, 1500), r)...)
+		} else {
+			all = append(all, exhaustive(3, b, reads, r.Pick(150, 3000), r)...)
+		}
 		all = append(all, randomSeqs(r.Pick(35, 700), 50, b, "wfc", 100000, r)...)
 		all = append(all, randomSeqs(r.Pick(20, 400), 50, b, "extend", 200000, r)...)
-		all = append(all, randomSeqs(r.Pick(25, 500), 50, b, "all", 300000, r)...)
-		all = append(all, randomSeqs(r.Pick(20, 400), 50, b, "each", 400000, r)...)
+		all = append(all, randomSeqs(r.Pick(25, 300), 50, b, "all", 300000, r)...)
+		all = append(all, randomSeqs(r.Pick(20, 200), 50, b, "each", 400000, r)...)
 	}
 	r.Note("sequences_planned", len(all))
 	only := os.Getenv("VERIF_C30_ONLY") // debugging aid (never set by ./check): exhaustive | random
